@@ -168,7 +168,7 @@ theorem attr_datatype_witness :
     generate e0 Γw2 {} w2 = .ok (evsOf Γw2 w2) ∧
     eventsTree (isDatatype Γw2) (evsOf Γw2 w2) = .ok (treeOf Γw2 w2) ∧
     parseRoot e0 Γw2 {} (s "Root") (treeOf Γw2 w2) =
-      .ok (.obj (s "Root") [(s "a", .prim (.str (s "string")))], 0) :=
+      .ok (.obj (s "Root") [(s "a", .prim (.str (s "xs:string")))], 0) :=
   ⟨by decide, by decide, rfl, rfl, rfl⟩
 
 /-- witness 3: a text var `value: Optional[str] = None` holding `""` -/
